@@ -245,8 +245,12 @@ func (b *circuitBreakerBase) fromOpenToHalfOpen(openWord int32, ctx *base.EntryC
 			// add hook for entry exit
 			// if the current circuit breaker performs the probe through this entry, but the entry was blocked,
 			// this hook will guarantee current circuit breaker state machine will rollback to Open from Half-Open
+			// The hook hands back the passage to half-open that this entry started, and only that one:
+			// by the time a slow entry exits, the breaker may have been re-opened by somebody else and
+			// be half-open again with another probe in flight.
+			halfOpenWord := nextWord(openWord, HalfOpen)
 			entry.WhenExit(func(entry *base.SentinelEntry, ctx *base.EntryContext) error {
-				if ctx.IsBlocked() && b.state.cas(HalfOpen, Open) {
+				if ctx.IsBlocked() && b.state.casWord(halfOpenWord, Open) {
 					for _, listener := range stateChangeListeners {
 						listener.OnTransformToOpen(HalfOpen, *b.rule, 1.0)
 					}
